@@ -199,7 +199,29 @@ def check(run, project, L, rule="G"):
     c_, v = f.args.args[0].arg, f.args.args[1].arg
     ps = paths.summarise(vals, f)
     tails = [p for p in ps if not any(a_.startswith("loop@") for a_, _v, _ in p.cond)]
-    if len(tails) != 1 or tails[0].end != "raise" or (call_name(tails[0].value) if tails[0].value is not None else None) != "ValueError":
+    # the search may live in a helper classmethod that answers None for "no member" and that by_value wraps:
+    # `m = cls.H(value); if m is None: raise ValueError(); return m`
+    wrapped = None
+    if len(ps) == 2 and not any(k == "loop" for p in ps for k, _e, _n in p.effects):
+        hs = {a_[:-len(" is None")] for p in ps for a_, _t, _ in p.cond if a_.endswith(" is None")}
+        if len(hs) == 1:
+            hcall = ast.parse(hs.pop(), mode="eval").body
+            if isinstance(hcall, ast.Call) and isinstance(hcall.func, ast.Attribute) and norm(hcall.func.value) == c_ \
+                    and [norm(a_) for a_ in hcall.args] == [v] and not hcall.keywords:
+                A = f"{norm(hcall)} is None"
+                hit = [p for p in ps if p.truth(A) is True]
+                miss = [p for p in ps if p.truth(A) is False]
+                if len(hit) == 1 and len(miss) == 1 and hit[0].end == "raise" and (call_name(hit[0].value) or "") == "ValueError" \
+                        and miss[0].end == "return" and miss[0].value_text() == norm(hcall):
+                    wrapped = vals.functions().get(f"tpm_enum._tpm_enum.{hcall.func.attr}")
+    if wrapped is not None:
+        f = wrapped
+        c_, v = f.args.args[0].arg, f.args.args[1].arg
+        ps = paths.summarise(vals, f)
+        tails = [p for p in ps if not any(a_.startswith("loop@") for a_, _v, _ in p.cond)]
+        if len(tails) != 1 or tails[0].end != "return" or tails[0].value_text() not in ("None", None):
+            raise AnalysisError(f"model guard G4: {f.name} (the search behind by_value) does not answer None when no member matches")
+    elif len(tails) != 1 or tails[0].end != "raise" or (call_name(tails[0].value) if tails[0].value is not None else None) != "ValueError":
         raise AnalysisError("model guard G4: by_value no longer raises ValueError when no member matches")
     lps = [(e, n) for k, e, n in tails[0].effects if k == "loop"]
     if len(lps) != 1 or paths.text(lps[0][0]) != c_ or not isinstance(lps[0][1].target, ast.Name) or \
@@ -212,8 +234,11 @@ def check(run, project, L, rule="G"):
     E = f"{a} == {v}" if f"{a} == {v}" in atoms else f"{v} == {a}"
     rows = [({N: True, I: True}, f"return {a}.by_number({v})"), ({E: True}, f"return {a}")]
     for p in its:
-        want = paths.decide(rows, "next member", View(p))
+        # (a NamedRange is never equal to a number: dataclass equality with another class is False)
+        want = paths.decide(rows, "next member", View(p), implies=[((N, True), (E, False))])
         got = f"return {p.value_text()}" if p.end == "return" else "next member" if p.end in ("fall", "continue") else p.end
+        if not want:
+            continue   # the path contradicts the implication: it cannot be taken
         if want != {got}:
             raise AnalysisError(f"model guard G4: by_value does `{got}` for a member with [{label(p)}], the model assumes "
                                 f"{' or '.join(sorted(want))}")
